@@ -11,7 +11,7 @@
     ISIZE, EOF marker, results of the calls, durability marks — is computed by
     the model and compared exactly. *)
 From Coq Require Import ZArith List Bool.
-From Hts Require Import Base.Prim Generated Model.Bgzf Model.Writer Model.WriterConc.
+From Hts Require Import Base.Prim Generated Model.Bgzf Model.Writer Model.WriterConc Model.HasEof.
 Import ListNotations.
 Open Scope Z_scope.
 
@@ -47,14 +47,22 @@ Inductive wrcase :=
 | WrCase (ops : list wrop) (lvl wc : Z) (h : gzhdr) (sched : list nat) (rounds : nat)
          (res : list (Z * Z)) (members : list omember) (eof : bool)
          (api_cum : list Z)     (* payload bytes in the members present after each API call; -1: not a member boundary *)
-         (w_k : list Z).        (* member count after each underlying Write; -1: not a member boundary *)
+         (w_k : list Z)         (* member count after each underlying Write; -1: not a member boundary *)
+         (probe : list (Z * Z * Z * Z))   (* (payload length, digest a, digest b, compressed length) measured on
+                                             compress/flate at this level, for blocks the writer may refuse *)
+| HeCase (data : list Z) (pos : Z) (kind : Z)   (* 0 Size(), 1 Stat(), 2 Seek+Len, 3 none *)
+         (has : bool) (err : Z).                (* what bgzf.HasEOF returned: value, error class 0 / 2 / 3 *)
 
-Definition clen_of (members : list omember) (d : list Z) : Z :=
+Definition clen_of (members : list omember) (probe : list (Z * Z * Z * Z)) (d : list Z) : Z :=
   let '(a, b) := adler d in
   let n := zlen d in
   match find (fun m : omember => let '(_, _, pl, ma, mb) := m in (pl =? n) && (ma =? a) && (mb =? b)) members with
   | Some (_, cl, _, _, _) => cl
-  | None => n + 1000
+  | None =>
+      match find (fun q : Z * Z * Z * Z => let '(pl, ma, mb, _) := q in (pl =? n) && (ma =? a) && (mb =? b)) probe with
+      | Some (_, _, _, cl) => cl
+      | None => n + 1000
+      end
   end.
 
 Definition rebuild (m : omember) : list Z :=
@@ -70,9 +78,12 @@ Fixpoint chunks_eqb (a b : list (list Z)) : bool :=
 Fixpoint res_eqb (a b : list (Z * Z)) : bool :=
   match a, b with
   | [], [] => true
-  | (x1, x2) :: a', (y1, y2) :: b' => (x1 =? y1) && (x2 =? y2) && res_eqb a' b'
+  | (x1, x2) :: a', (y1, y2) :: b' => (x1 =? y1) && ((x2 =? y2) || (y2 =? -1)) && res_eqb a' b'
   | _, _ => false
   end.
+
+(** Observed class -1 = not compared (result depends on how fast the failure of a
+    block becomes known). *)
 
 (** durable <= observed <= written, per returned call *)
 Fixpoint marks_ok (marks : list (Z * Z)) (cum : list Z) : bool :=
@@ -87,9 +98,9 @@ Fixpoint count_up (i : Z) (l : list Z) : bool :=
 
 Definition wr_agree (c : wrcase) : bool :=
   match c with
-  | WrCase ops lvl wc h sched rounds res members eof api_cum w_k =>
+  | WrCase ops lvl wc h sched rounds res members eof api_cum w_k probe =>
       let script := map to_wop ops in
-      let dfl := fun (_ : Z) (d : list Z) => repeat 0 (Z.to_nat (clen_of members d)) in
+      let dfl := fun (_ : Z) (d : list Z) => repeat 0 (Z.to_nat (clen_of members probe d)) in
       let crc := fun _ : list Z => 0 in
       let n := Z.to_nat (pool_size wc) in
       let st := run_conc dfl crc bgzf_wr_patch_mode bgzf_wr_patch_guard bgzf_wr_overflow_check lvl h no_fault
@@ -105,7 +116,16 @@ Definition wr_agree (c : wrcase) : bool :=
       && marks_ok (s_marks s) api_cum
       && count_up 1 w_k
       && (zlen w_k =? zlen (x_out st))
-      && sdone sq
-      && chunks_eqb (seq_chunks dfl crc bgzf_wr_patch_mode bgzf_wr_patch_guard bgzf_wr_overflow_check lvl h sq) (x_out st)
-      && res_eqb (s_res sq) res
+      && (is_some (x_err st)
+          || (sdone sq
+              && chunks_eqb (seq_chunks dfl crc bgzf_wr_patch_mode bgzf_wr_patch_guard bgzf_wr_overflow_check lvl h sq) (x_out st)
+              && res_eqb (s_res sq) res))
+  | HeCase data pos kind has err =>
+      let methods := if kind =? 0 then Some HSizer else if kind =? 1 then Some HStater
+                     else if kind =? 2 then Some HLenSeeker else None in
+      match haseof_go {| he_data := data; he_pos := pos; he_methods := methods |} with
+      | Ok b => Bool.eqb b has && (err =? 0)
+      | Err e => negb has && (err =? e)
+      | _ => false
+      end
   end.
